@@ -22,6 +22,7 @@ pub struct Invocation {
     pub body_len: usize,
     pub body_sum: u64,
     pub headers: Vec<(String, String)>,
+    pub origin: Option<anemo::ConnectionOrigin>,
 }
 
 #[derive(Default)]
@@ -146,6 +147,7 @@ impl tower::Service<Request<Bytes>> for Svc {
                 body_len: req.body().len(),
                 body_sum: body_sum(req.body()),
                 headers: hs,
+                origin: req.extensions().get::<anemo::ConnectionOrigin>().copied(),
             });
             log.lifecycle.entry(id.clone()).or_default().0 += 1;
             if c > log.max_concurrent {
